@@ -9,7 +9,7 @@ Open Scope nat_scope.
 (* a record update that touches only the context / cancel fields *)
 Definition rctxonly (x y : rec) : Prop :=
   rkey y = rkey x /\ rlin y = rlin x /\ rdata y = rdata x /\ rerr y = rerr x /\ rsucc y = rsucc x /\ rexited y = rexited x /\
-  rbo y = rbo x /\ rexit y = rexit x /\ rremove y = rremove x /\ rretry y = rretry x.
+  rbo y = rbo x /\ rexit y = rexit x /\ rremove y = rremove x /\ rretry y = rretry x /\ rnil y = rnil x.
 Lemma rctxonly_noctx x : rctxonly x (with_noctx x). Proof. repeat split. Qed.
 Lemma rctxonly_cancel x v : rctxonly x (with_cancel x v). Proof. repeat split. Qed.
 
@@ -17,6 +17,24 @@ Lemma rctxonly_cancel x v : rctxonly x (with_cancel x v). Proof. repeat split. Q
 Definition rm_timer (s : st) (r : nat) : timer :=
   {| tkind := true; trec := r; tkey := rkey (getr s r); tdead := (clock s + delay s)%N; tst := TArmed |}.
 Definition ran (s : st) (t : nat) (x : timer) : st := set_timers s (set_nth (timers s) t (with_tst x TRan)).
+
+(* removeNow from its parts *)
+Section RemoveNowParts.
+  Variable P : st -> st -> Prop.
+  Hypothesis P_trans : forall s s1 s2, P s s1 -> P s1 s2 -> P s s2.
+  Hypothesis P_cancel_inst : forall s oi, P s (cancel_inst s oi).
+  Hypothesis P_stop_retry : forall s r, P s (stop_timer s (rretry (getr s r))).
+  Hypothesis P_clear_retry : forall s r, P s (setr s r (with_retry (getr s r) None)).
+  Hypothesis P_kmap_delete : forall s k, P s (set_kmap s (delete (kmap s) k)).
+  Lemma remove_now_parts s r : P s (remove_now s r).
+  Proof.
+    unfold remove_now. set (s1 := cancel_inst s (rcancel (getr s r))).
+    assert (E : getr s r = getr s1 r) by (unfold s1; now rewrite getr_cancel_inst).
+    apply (P_trans s s1); [apply P_cancel_inst|]. rewrite E.
+    apply (P_trans s1 (stop_timer s1 (rretry (getr s1 r)))); [apply P_stop_retry|].
+    eapply P_trans; [apply P_clear_retry | apply P_kmap_delete].
+  Qed.
+End RemoveNowParts.
 
 Section Walk2.
   Variable P : st -> st -> Prop.
@@ -29,9 +47,7 @@ Section Walk2.
   Hypothesis P_new_same : forall s k r lin w, lookup (kmap s) k = Some r -> lin = rlin (getr s r) -> P s (fst (new_record s k lin w)).
   Hypothesis P_unremove : forall s k r, lookup (kmap s) k = Some r -> P s (unremove s r).
   Hypothesis P_setr_ctx : forall s r y, rctxonly (getr s r) y -> P s (setr s r y).
-  Hypothesis P_stop_retry : forall s r, P s (stop_timer s (rretry (getr s r))).
-  Hypothesis P_clear_retry : forall s r, P s (setr s r (with_retry (getr s r) None)).
-  Hypothesis P_kmap_delete : forall s k, P s (set_kmap s (delete (kmap s) k)).
+  Hypothesis P_remove_now : forall s k r, lookup (kmap s) k = Some r -> P s (remove_now s r).
   Hypothesis P_arm_remove : forall s k r, lookup (kmap s) k = Some r -> rremove (getr s r) = None ->
     P s (setr (set_timers s (timers s ++ [rm_timer s r])) r (with_remove (getr s r) (Some (length (timers s))))).
   Hypothesis P_seti_pc : forall s i x p, nth_error (insts s) i = Some x -> P s (seti s i (with_pc x p)).
@@ -58,18 +74,10 @@ Section Walk2.
   Lemma V_norm_ctx s : P s (norm_ctx s).
   Proof. unfold norm_ctx. destruct (root_canc s (kctx s)); [apply P_set_kctx | apply P_refl]. Qed.
 
-  Lemma V_remove_now s r : P s (remove_now s r).
-  Proof.
-    unfold remove_now. set (s1 := cancel_inst s (rcancel (getr s r))).
-    assert (E : getr s r = getr s1 r) by (unfold s1; now rewrite getr_cancel_inst).
-    apply (P_trans s s1); [apply P_cancel_inst|]. rewrite E.
-    apply (P_trans s1 (stop_timer s1 (rretry (getr s1 r)))); [apply P_stop_retry|].
-    tr; [apply P_clear_retry | apply P_kmap_delete].
-  Qed.
   Lemma V_remove_rec s k r : lookup (kmap s) k = Some r -> P s (remove_rec s r).
   Proof.
     intros Hk. unfold remove_rec. destruct (rremove (getr s r)) eqn:E; [apply P_refl|].
-    destruct (N.eqb (delay s) 0 || failed (getr s r)); [apply V_remove_now|]. now apply (P_arm_remove s k r).
+    destruct (N.eqb (delay s) 0 || failed (getr s r)); [now apply (P_remove_now s k)|]. now apply (P_arm_remove s k r).
   Qed.
   Lemma V_remove_key s k : P s (fst (remove_key s k)).
   Proof. unfold remove_key. destruct (lookup (kmap s) k) eqn:E; cbn [fst]; [now apply (V_remove_rec s k) | apply P_refl]. Qed.
@@ -192,7 +200,8 @@ Section Walk2.
       apply andb_true_iff in Ec as [Em Eo].
       assert (Er : rremove (getr s1 (trec x)) = Some t).
       { unfold opt_is in Eo. destruct (rremove (getr s1 (trec x))) as [t'|]; [|discriminate]. apply Nat.eqb_eq in Eo. now subst. }
-      rewrite Er. tr; [apply (P_cb_remove s t x Ex Es Ek Em Er) | apply V_remove_now].
+      rewrite Er. tr; [apply (P_cb_remove s t x Ex Es Ek Em Er)|]. apply (P_remove_now _ (rkey (getr s1 (trec x)))).
+      rewrite kmap_setr, kmap_stop_timer. now apply in_map_lookup.
     - assert (G1 : P s s1) by (now apply P_cb_retry).
       destruct (has_ctx s1) eqn:Ec; cbn [andb]; [|exact G1]. destruct (in_map s1 (trec x)) eqn:Em; cbn [andb]; [|exact G1].
       destruct (rexited (getr s1 (trec x))); [|exact G1]. tr; [exact G1|].
@@ -216,6 +225,17 @@ Section Walk2.
     - apply V_reset_routine. - apply V_restart_routine. - apply V_reset_all. - apply V_restart_all.
     - apply V_add_key_ref. - apply V_release_start. - apply V_release_section. - apply V_rc_remove_key.
     - apply V_proceed. - apply V_wake. - apply V_fn_return. - exfalso. now apply (Hb i). - apply P_advance. - apply V_timer_cb.
+    - apply P_cancel_root. - apply P_set_nilmode.
+  Qed.
+  (* ... and except timer callbacks *)
+  Definition quiet (e : ev) : bool := match e with EBook _ | ETimerCb _ => false | _ => true end.
+  Theorem V_step_quiet s e : quiet e = true -> P s (step repaired s e).
+  Proof.
+    intros Hq. destruct e; try discriminate Hq; cbn [step].
+    - apply V_set_context. - apply V_set_key. - apply V_remove_key. - apply V_sync_keys. - apply P_refl.
+    - apply V_reset_routine. - apply V_restart_routine. - apply V_reset_all. - apply V_restart_all.
+    - apply V_add_key_ref. - apply V_release_start. - apply V_release_section. - apply V_rc_remove_key.
+    - apply V_proceed. - apply V_wake. - apply V_fn_return. - apply P_advance.
     - apply P_cancel_root. - apply P_set_nilmode.
   Qed.
   Lemma V_run_wakes s n : P s (run repaired s (wakes n)).
